@@ -1242,6 +1242,19 @@ class PandasModelBase(
             res = self.pd.concat([sk] + split, axis=1)
         else:
             res = self.pd.concat(split, axis=1)
+        # a control table level with no rows in the data still has its (all missing) columns, as in SQL
+        value_columns = [
+            c
+            for c in blocks_in.control_table.columns
+            if c not in blocks_in.control_table_keys
+        ]
+        for c in blocks_in.row_columns:
+            if c not in res.columns:
+                missing_value = None
+                for vc in value_columns:
+                    if (c in set(blocks_in.control_table[vc])) and self.pd.api.types.is_numeric_dtype(data[vc]):
+                        missing_value = numpy.nan  # keep the level's columns numeric
+                res[c] = missing_value
         if (blocks_in.record_keys is not None) and (len(blocks_in.record_keys) > 0):
             res = res.sort_values(
                 by=blocks_in.record_keys, inplace=False, ignore_index=True
